@@ -131,7 +131,8 @@ ATOMS = {
     'SupportsIndex': lambda: typing.SupportsIndex, 'AnyStr': lambda: typing.AnyStr, 'Text': lambda: typing.Text,
     'Awaitable_bare': lambda: cabc.Awaitable, 'Literal_1': lambda: Literal[1],
     'Literal_enum': lambda: Literal[EnumK.A], 'Literal_none': lambda: Literal[None], 'Literal_mixed': lambda: Literal[1, 'a', None, True, b'x'],
-    'TypeAliasType': lambda: _type_alias(), 'OrderedDict_bare': lambda: typing.OrderedDict, 'DefaultDict_bare': lambda: typing.DefaultDict,
+    'TypeAliasType': lambda: _type_alias(), 'AlRec': lambda: _PEP695['AlRec'], 'AlRecG_int': lambda: _PEP695['AlRecG'][int],
+    'AlG_bare': lambda: _PEP695['AlG'], 'AlFwd': lambda: _PEP695['AlFwd'], 'OrderedDict_bare': lambda: typing.OrderedDict, 'DefaultDict_bare': lambda: typing.DefaultDict,
     # references
     'fwd_int': lambda: typing.ForwardRef('int'), 'fwd_nosuch': lambda: typing.ForwardRef('NoSuchNameAnywhere'),
     's_int': lambda: 'int', 's_nosuch': lambda: 'NoSuchNameAnywhere', 's_list_int': lambda: 'list[int]',
@@ -154,6 +155,11 @@ def _deep(n):
     for _ in range(n):
         h = list[h]
     return h
+
+
+_PEP695 = {}
+exec('type AlG[T] = list[T]\ntype AlD[K, V] = dict[K, V]\ntype AlRec = list[AlRec] | int\ntype AlRecG[T] = tuple[T, AlRecG[T]] | None\n'
+     'type AlFwd = list[NotYetDefinedAnywhere]', _PEP695)
 
 
 def _type_alias():
@@ -192,7 +198,8 @@ CTORS = {
     'ItemsView': (2, lambda a, b: cabc.ItemsView[a, b]), 'KeysView': (1, lambda a: cabc.KeysView[a]),
     'Collection': (1, lambda a: cabc.Collection[a]), 'Reversible': (1, lambda a: cabc.Reversible[a]),
     'OrderedDict': (2, lambda a, b: collections.OrderedDict[a, b]), 'defaultdict': (2, lambda a, b: collections.defaultdict[a, b]),
-    'ProtoGeneric': (1, lambda a: ProtoGeneric[a]), 'Pattern': (1, lambda a: typing.Pattern[a]),
+    'ProtoGeneric': (1, lambda a: ProtoGeneric[a]), 'AlG': (1, lambda a: _PEP695['AlG'][a]),
+    'AlD': (2, lambda a, b: _PEP695['AlD'][a, b]), 'AlRecG': (1, lambda a: _PEP695['AlRecG'][a]), 'Pattern': (1, lambda a: typing.Pattern[a]),
 }
 
 OBJECTS = {
